@@ -523,10 +523,12 @@ Section Measure.
   Qed.
   Lemma wsum_repeat n : wsum (repeat worker0 n) = 3 * n.
   Proof. induction n; simpl; auto. unfold wsum in *; simpl. rewrite IHn. lia. Qed.
-  Lemma msum_outer : msum (c_outer c) = 2 * List.length (c_outer c).
+  Lemma msum_two l : Forall (fun a => m_cost c a = 2) l -> msum l = 2 * List.length l.
   Proof.
-    induction Houter2; simpl; auto. unfold msum in *; simpl. rewrite H, IHf. lia.
+    induction 1 as [|a l Ha _ IH]; simpl; auto. unfold msum in *; simpl. rewrite Ha, IH. lia.
   Qed.
+  Lemma msum_outer : msum (c_outer c) = 2 * List.length (c_outer c).
+  Proof. apply msum_two, Houter2. Qed.
   Lemma m_cost_ge a : 2 <= m_cost c a.
   Proof. destruct a; simpl; lia. Qed.
 
@@ -549,7 +551,7 @@ Section Measure.
       + assert (Hs : (mainpc s' = c_outer c \/ mainpc s' = pc) /\ pend s' = pend s /\ closed s' = closed s /\
                      ppolled s' = ppolled s /\ buf s' = buf s /\ ws s' = ws s /\ panicked s' = false).
         { destruct (ebuf s); [destruct (eclosed s); [|discriminate]|]; inversion H; subst; simpl; rewrite Ep; auto 10. }
-        destruct Hs as (Hm & -> & -> & -> & -> & -> & ->). fold (msum pc). fold (msum (mainpc s')).
+        destruct Hs as (Hm & -> & -> & -> & -> & -> & ->). simpl. fold (msum pc). fold (msum (mainpc s')).
         destruct Hm as [-> | ->]; [rewrite msum_outer|]; lia.
       + inversion H; subst; clear H. simpl. rewrite Ep. fold (msum pc). lia.
       + inversion H; subst; clear H. simpl. rewrite Ep. fold (msum pc). lia.
@@ -561,7 +563,7 @@ Section Measure.
       + assert (Hs : mainpc s' = pc /\ pend s' = pend s /\ closed s' = closed s /\
                      ppolled s' = ppolled s /\ buf s' = buf s /\ ws s' = ws s /\ panicked s' = false).
         { destruct (sbuf s); [destruct (sclosed s); [|discriminate]|]; inversion H; subst; simpl; rewrite Ep; auto 10. }
-        destruct Hs as (-> & -> & -> & -> & -> & -> & ->). fold (msum pc). lia.
+        destruct Hs as (-> & -> & -> & -> & -> & -> & ->). simpl. fold (msum pc). lia.
     - (* producer *)
       unfold step_prod in H. unfold measure. rewrite Ep.
       destruct (pend s) as [|[b|] p] eqn:Epd.
